@@ -170,3 +170,11 @@ Proof.
   unfold header_wf; cbn. repeat split; try lia;
     repeat (constructor; [unfold byte_ok; lia|]); constructor.
 Qed.
+
+(* The constants written in the model are the constants of the SOURCE: coq/Generated/SrcConsts.v is regenerated
+   from /repo/buidl/*.py by harness/gen_coq_consts.py on every run; the statements are spelled out in
+   Proofs/ConstsTie.v (magic_is_source_stmt, golomb_is_source_stmt). *)
+From V Require Proofs.ConstsTie.
+Theorem C19_constants_match_source : ConstsTie.magic_is_source_stmt /\ ConstsTie.golomb_is_source_stmt.
+Proof. exact (conj ConstsTie.magic_is_source ConstsTie.golomb_is_source). Qed.
+Print Assumptions C19_constants_match_source.
